@@ -74,6 +74,7 @@ class Program:
         self.repo = facts["_meta"]["repo"]
         if not facts.get("_desugared"):
             _desugar_fn_values(facts)
+            _normalise(facts)
             facts["_desugared"] = True
         self.fns = [hir.Fn(r, facts) for r in facts["fns"]]
         self.by_def = {f.def_path: f for f in self.fns}
@@ -300,6 +301,272 @@ def _desugar_fn_values(facts):
     for r in facts["fns"]:
         if "body" in r and not r.get("gen"):
             visit(r["body"])
+
+
+def _normalise(facts):
+    """Equivalent spellings are brought to one form before any rule looks at the tree, so that a rule written
+    against `x.is_some()` also reads `!x.is_none()`:
+      !x.is_none() -> x.is_some(), !x.is_some() -> x.is_none();  x.len() == 0 -> x.is_empty(), x.len() != 0 / > 0 ->
+      !x.is_empty();  !(a == b) -> a != b, !(a != b) -> a == b;  <constant> == x -> x == <constant>;
+      x = x + e -> x += e;  Box::from(e) -> Box::new(e);  e.to_owned() (not str / slice) and Clone::clone(&e) ->
+      e.clone();  Vec::default() -> Vec::new();  a single-use, never reassigned local initialised with a
+      literal, a constant, a place or a copy of a place is read through at its use (`let f = a.b.clone(); S { f }`
+      is S { f: a.b.clone() })."""
+    import copy
+
+    counter = [60_000_000]
+
+    def fresh():
+        counter[0] += 1
+        return counter[0]
+
+    def peel(n):
+        while isinstance(n, dict) and n.get("k") in ("DropTemps", "Use") and "x" in n:
+            n = n["x"]
+        return n
+
+    def is_const(n):
+        n = peel(n)
+        if not isinstance(n, dict):
+            return False
+        if n.get("k") == "Lit":
+            return True
+        if n.get("k") == "Path" and (n.get("res") or {}).get("res") == "Def" and ((n["res"].get("kind") or "").startswith(("Ctor", "Const", "AssocConst", "Static"))):
+            return True
+        if n.get("k") == "AddrOf":
+            return is_const(n.get("x"))
+        return False
+
+    def place_text(n):
+        n = peel(n)
+        if not isinstance(n, dict):
+            return None
+        k = n.get("k")
+        if k == "Path" and (n.get("res") or {}).get("res") == "Local":
+            return "#%s" % n["res"].get("local")
+        if k == "Field":
+            b = place_text(n.get("x"))
+            return None if b is None else b + "." + str(n.get("field"))
+        if k == "Unary" and n.get("op") == "Deref":
+            return place_text(n.get("x"))
+        if k == "AddrOf":
+            return place_text(n.get("x"))
+        return None
+
+    def replace(n, new, keep_id=True):
+        keep = {"id": n.get("id"), "sp": n.get("sp")}
+        for kk in ("adj", "aty"):
+            if kk in n:
+                keep[kk] = n[kk]
+        n.clear()
+        n.update(new)
+        if keep_id:
+            n["id"] = keep["id"]
+        n.setdefault("sp", keep["sp"])
+        for kk in ("adj", "aty"):
+            if kk in keep and kk not in n:
+                n[kk] = keep[kk]
+        n["normalised"] = True
+
+    def visit(n):
+        if isinstance(n, list):
+            for v in n:
+                visit(v)
+            return
+        if not isinstance(n, dict):
+            return
+        for v in list(n.values()):
+            visit(v)
+        k = n.get("k")
+        if k == "Unary" and n.get("op") == "Not":
+            x = peel(n.get("x"))
+            if isinstance(x, dict) and x.get("k") == "MethodCall" and x.get("method") in ("is_none", "is_some") and not x.get("args") and "Option" in ((x.get("callee") or {}).get("path") or ""):
+                flip = "is_some" if x["method"] == "is_none" else "is_none"
+                new = dict(x)
+                new["method"] = flip
+                c = dict(new.get("callee") or {})
+                c["name"] = flip
+                c["path"] = (c.get("path") or "").rsplit("::", 1)[0] + "::" + flip
+                new["callee"] = c
+                replace(n, new)
+                return
+            if isinstance(x, dict) and x.get("k") == "Binary" and x.get("op") in ("Eq", "Ne") and (x.get("ty") in (None, "bool")):
+                new = dict(x)
+                new["op"] = "Ne" if x["op"] == "Eq" else "Eq"
+                c = new.get("callee")
+                if isinstance(c, dict) and c.get("name") in ("eq", "ne"):
+                    c = dict(c)
+                    c["name"] = "ne" if c["name"] == "eq" else "eq"
+                    new["callee"] = c
+                replace(n, new)
+                return
+        if k == "Binary" and n.get("op") in ("Eq", "Ne", "Gt", "Lt") and "l" in n and "r" in n:
+            l, r = peel(n["l"]), peel(n["r"])
+            # <constant> == x  ->  x == <constant>
+            if n["op"] in ("Eq", "Ne") and is_const(l) and not is_const(r):
+                n["l"], n["r"] = n["r"], n["l"]
+                n["normalised"] = True
+                l, r = r, l
+            # x.len() == 0 / != 0 / > 0
+            zero_r = isinstance(r, dict) and r.get("k") == "Lit" and (r.get("lit") or {}).get("v") in (0, "0")
+            if zero_r and isinstance(l, dict) and l.get("k") == "MethodCall" and l.get("method") == "len" and not l.get("args") and n["op"] in ("Eq", "Ne", "Gt"):
+                c = dict(l.get("callee") or {})
+                c["name"] = "is_empty"
+                c["path"] = (c.get("path") or "").rsplit("::", 1)[0] + "::is_empty"
+                call = {"id": fresh(), "sp": n.get("sp"), "ty": "bool", "k": "MethodCall", "method": "is_empty", "recv": l["recv"], "args": [], "callee": c, "normalised": True}
+                if n["op"] == "Eq":
+                    replace(n, call)
+                else:
+                    replace(n, {"k": "Unary", "op": "Not", "x": call, "ty": "bool"})
+                return
+        if k == "Assign" and "l" in n and "r" in n:
+            r = peel(n["r"])
+            if isinstance(r, dict) and r.get("k") == "Binary" and r.get("op") in ("Add", "Sub") and place_text(n["l"]) is not None and place_text(r.get("l")) == place_text(n["l"]):
+                replace(n, {"k": "AssignOp", "op": r["op"] + "Assign", "l": n["l"], "r": r["r"], "ty": n.get("ty")})
+                return
+        if k in ("Call", "MethodCall"):
+            c = n.get("callee") or {}
+            path = c.get("path") or ""
+            name = c.get("name") or n.get("method")
+            if k == "Call" and name == "from" and len(n.get("args", [])) == 1 and ("boxed::Box" in (c.get("resolved") or "") or "boxed::Box" in (n.get("ty") or "")) and (c.get("trait") or "").startswith("std::convert::From"):
+                c2 = {"path": "std::boxed::Box::<T>::new", "name": "new", "krate": "alloc", "kind": "AssocFn", "self_ty": "std::boxed::Box<T>", "gargs": c.get("gargs", [])}
+                n["callee"] = c2
+                if isinstance(n.get("f"), dict):
+                    n["f"]["callee"] = c2
+                n["normalised"] = True
+            if k == "Call" and name == "default" and "vec::Vec" in (n.get("ty") or "") and not n.get("args"):
+                c2 = {"path": "std::vec::Vec::<T>::new", "name": "new", "krate": "alloc", "kind": "AssocFn", "self_ty": "std::vec::Vec<T>", "gargs": c.get("gargs", [])}
+                n["callee"] = c2
+                if isinstance(n.get("f"), dict):
+                    n["f"]["callee"] = c2
+                n["normalised"] = True
+            if k == "MethodCall" and name == "to_owned" and path.endswith("ToOwned::to_owned"):
+                rty = (peel(n.get("recv")) or {}).get("ty") or ""
+                core = rty.replace("&mut ", "").replace("&", "").strip()
+                if core not in ("str",) and not core.startswith("["):
+                    c2 = dict(c)
+                    c2["name"] = "clone"
+                    c2["path"] = "std::clone::Clone::clone"
+                    c2["trait"] = "std::clone::Clone"
+                    n["method"] = "clone"
+                    n["callee"] = c2
+                    n["normalised"] = True
+            if k == "Call" and name == "clone" and path.endswith("Clone::clone") and len(n.get("args", [])) == 1:
+                a0 = n["args"][0]
+                recv = a0["x"] if isinstance(a0, dict) and a0.get("k") == "AddrOf" and "x" in a0 else a0
+                new = {"k": "MethodCall", "method": "clone", "recv": recv, "args": [], "callee": c, "ty": n.get("ty")}
+                replace(n, new)
+                return
+
+    def inline_locals(body):
+        """single-use, never reassigned, non-mut locals with a trivial initialiser are read through at the use"""
+        lets = {}
+        uses = {}
+        assigned = set()
+        for n in _walk_json(body):
+            k = n.get("k")
+            if k == "Block":
+                for st in n.get("stmts", []):
+                    if st.get("k") == "Let" and st.get("init") is not None and "els" not in st and (st.get("pat") or {}).get("k") == "Binding" and "Mut)" not in ((st["pat"].get("mode") or "")) and "Yes" not in (st["pat"].get("mode") or "") and not st["pat"].get("sub"):
+                        lets[st["pat"]["local"]] = st
+            elif k == "Path" and (n.get("res") or {}).get("res") == "Local":
+                uses.setdefault(n["res"]["local"], []).append(n)
+            elif k in ("Assign", "AssignOp"):
+                pt = place_text(n.get("l"))
+                if pt:
+                    assigned.add(pt.split(".")[0])
+
+        def trivial(e, depth=0):
+            e = peel(e)
+            if not isinstance(e, dict) or depth > 4:
+                return False
+            k = e.get("k")
+            if k == "Lit" or is_const(e):
+                return True
+            if k == "Path" and (e.get("res") or {}).get("res") == "Local":
+                return True
+            if k in ("Field", "AddrOf", "Cast") or (k == "Unary" and e.get("op") == "Deref"):
+                return trivial(e.get("x"), depth + 1)
+            if k == "MethodCall" and e.get("method") in ("clone", "to_owned", "to_string", "as_str", "as_ref") and not e.get("args"):
+                return trivial(e.get("recv"), depth + 1)
+            if k == "Call":
+                # a constructor (enum variant / tuple struct) or Box::new around something trivial
+                f0 = peel(e.get("f"))
+                cp = (f0.get("res") or {}).get("ctor_path") if isinstance(f0, dict) and f0.get("k") == "Path" else None
+                boxnew = (e.get("callee") or {}).get("name") == "new" and "boxed::Box" in ((e.get("callee") or {}).get("path") or "")
+                if (cp or boxnew) and len(e.get("args", [])) <= 2:
+                    return all(trivial(a_, depth + 1) for a_ in e.get("args", []))
+            return False
+
+        def shared_view(e):
+            """`&place`: a shared view that can be read through at every use"""
+            e = peel(e)
+            return isinstance(e, dict) and e.get("k") == "AddrOf" and not e.get("mut") and place_text(e.get("x")) is not None
+
+        for lid, st in lets.items():
+            us = uses.get(lid, [])
+            if ("#%s" % lid) in assigned or not trivial(st["init"]):
+                continue
+            if len(us) != 1 and not (us and len(us) <= 6 and shared_view(st["init"])):
+                continue
+            if len(us) != 1:
+                reads = {("#%s" % x["res"]["local"]) for x in _walk_json(st["init"]) if x.get("k") == "Path" and (x.get("res") or {}).get("res") == "Local"}
+                if reads & assigned:
+                    continue
+                for use in us:
+                    new = copy.deepcopy(peel(st["init"]))
+                    for x in _walk_json(new):
+                        if "id" in x:
+                            x["id"] = fresh()
+                    keep = {kk: use[kk] for kk in ("adj", "aty") if kk in use}
+                    uid = use.get("id")
+                    use.clear()
+                    use.update(new)
+                    use["id"] = uid
+                    use.update({kk: vv for kk, vv in keep.items() if kk not in use})
+                    use["normalised"] = True
+                    use["inlined_local"] = lid
+                continue
+            if any(x is us[0] for x in _walk_json(st["init"])):
+                continue
+            # the locals the initialiser reads must not be written between the let and the use: keep it simple -
+            # they are never assigned at all in this body
+            reads = {("#%s" % x["res"]["local"]) for x in _walk_json(st["init"]) if x.get("k") == "Path" and (x.get("res") or {}).get("res") == "Local"}
+            if reads & assigned:
+                continue
+            new = copy.deepcopy(peel(st["init"]))
+            for x in _walk_json(new):
+                if "id" in x:
+                    x["id"] = fresh()
+            use = us[0]
+            keep = {kk: use[kk] for kk in ("adj", "aty") if kk in use}
+            uid = use.get("id")
+            use.clear()
+            use.update(new)
+            use["id"] = uid
+            use.update({kk: vv for kk, vv in keep.items() if kk not in use})
+            use["normalised"] = True
+            use["inlined_local"] = lid
+
+    for r in facts["fns"]:
+        if "body" in r and not r.get("gen"):
+            visit(r["body"])
+            inline_locals(r["body"])
+    for c in facts.get("consts") or []:
+        if "body" in c and not c.get("gen"):
+            visit(c["body"])
+
+
+def _walk_json(n):
+    stack = [n]
+    while stack:
+        x = stack.pop()
+        if isinstance(x, dict):
+            if "k" in x:
+                yield x
+            stack.extend(x.values())
+        elif isinstance(x, list):
+            stack.extend(x)
 
 
 def _generic_free(p):
